@@ -38,17 +38,24 @@ structure Inv (c : Cfg) (input : List Nat) (s : St) : Prop where
   spawned_iff : (s.rd = .notStarted ∧ s.spawned = 0) ∨ (s.rd ≠ .notStarted ∧ s.spawned = 1)
   advanced : 0 < s.idle + s.hold.length → s.rd ≠ .notStarted
   notstarted : s.started = false →
-    s.fresh = c.n ∧ s.rd = .notStarted ∧ s.kst = .waiting ∧ s.cons ≠ .parked ∧ s.waiters = 0 ∧ s.wcancel = false
+    s.fresh = c.n ∧ s.rd = .notStarted ∧ s.kst = .waiting ∧ s.cons ≠ .parked ∧ s.waiters = 0
   nolazy : c.lazy = false → s.started = true
   noout : c.hasOut = false → s.out = [] ∧ s.got = [] ∧ s.cons = .done ∧ s.oclosed = false
   hasout : c.hasOut = true → s.seen = []
   done_wdone : c.hasOut = true → s.cons = .done → s.wdone = true
   kst_wcancel : s.kst ≠ .waiting → s.wcancel = true
-  oclosed_kst : s.oclosed = true → s.kst = .exited
+  oclosed_kst : c.invalid = false → s.oclosed = true → s.kst = .exited
   nocloser : c.hasCloser = false → s.kst = .waiting
-  wexited_why : 0 < s.wexited → s.pclosed = true ∨ s.wdone2 = true
+  wexited_why : 0 < s.wexited → s.pclosed = true ∨ s.wdone2 = true ∨ (c.invalid = true ∧ c.hasOut = true)
   kst_exited : s.kst = .exited → s.oclosed = c.hasOut
   waiters_once : c.onceGo = false → s.waiters = 0
+  /-- rejected options, with an output: the output was closed by the constructor; nothing is ever delivered -/
+  invalid_out : c.invalid = true → c.hasOut = true → s.oclosed = true ∧ s.got = [] ∧ s.out = []
+  /-- rejected options, no output: the workers' context is done from the start; no worker ever advances -/
+  invalid_noout : c.invalid = true → c.hasOut = false →
+    s.wcancel = true ∧ s.idle = 0 ∧ s.hold = [] ∧ s.seen = [] ∧ s.rd = .notStarted
+  /-- the source is only read by the reader goroutine -/
+  src_untouched : s.rd = .notStarted → s.src = input
 
 /-- conservation, as equality of multiplicities -/
 def Conserved (input : List Nat) (s : St) : Prop := ∀ a, s.items.count a = input.count a
@@ -64,18 +71,19 @@ structure Clean (c : Cfg) (input : List Nat) (s : St) : Prop where
   closed : s.closed = true → s.cons = .done ∧ s.out = [] ∧ s.kst = .exited ∧ c.hasOut = true
 
 theorem inv_init (c : Cfg) (input : List Nat) (k1 k2 : Nat) : Inv c input (init c input k1 k2) := by
-  constructor <;> cases hl : c.lazy <;> cases ho : c.hasOut <;> simp [init, hl, ho, St.wdone, St.wdone2]
+  constructor <;> cases hl : c.lazy <;> cases ho : c.hasOut <;> cases hv : c.invalid <;> simp [init, hl, ho, hv, St.wdone, St.wdone2]
 
 theorem conserved_init (c : Cfg) (input : List Nat) (k1 k2 : Nat) : Conserved input (init c input k1 k2) := by
   intro a; simp [init, St.items, GState.held]
 
-theorem clean_init (c : Cfg) (input : List Nat) (k1 k2 : Nat) : Clean c input (init c input k1 k2) := by
-  constructor <;> simp [init, St.live, GState.held]
+theorem clean_init (c : Cfg) (input : List Nat) (k1 k2 : Nat) (hv : c.invalid = false) :
+    Clean c input (init c input k1 k2) := by
+  constructor <;> simp [init, St.live, GState.held, hv]
 
 set_option maxHeartbeats 1000000 in
 theorem step_inv {c : Cfg} {input : List Nat} {s s' : St} {a : Act}
     (h : Inv c input s) (hs : step c s a = some s') : Inv c input s' := by
-  obtain ⟨h1, h2, h3, h4, h5, h6, h7, h8, h9, h10, h11, h12, h13, h14, h15⟩ := h
+  obtain ⟨h1, h2, h3, h4, h5, h6, h7, h8, h9, h10, h11, h12, h13, h14, h15, h16, h17, h18⟩ := h
   cases a <;> simp only [step] at hs <;> (repeat' (split at hs)) <;> cases hs
   all_goals (constructor <;> first | (simp_all [St.wdone, St.wdone2, St.live]; done) | grind [St.wdone, St.wdone2, St.live, length_eraseIdx'])
 
@@ -92,10 +100,11 @@ theorem step_conserved {c : Cfg} {input : List Nat} {s s' : St} {a : Act}
 
 set_option maxHeartbeats 1000000 in
 theorem step_clean {c : Cfg} {input : List Nat} {s s' : St} {a : Act}
-    (hi : Inv c input s) (h : s.envStopped = false → Clean c input s) (hs : step c s a = some s') :
-    s'.envStopped = false → Clean c input s' := by
+    (hv : c.invalid = false) (hi : Inv c input s) (h : s.envStopped = false → Clean c input s)
+    (hs : step c s a = some s') : s'.envStopped = false → Clean c input s' := by
   intro he
-  obtain ⟨h1, h2, h3, h4, h5, h6, h7, h8, h9, h10, h11, h12, h13, h14, h15⟩ := hi
+  have h11' := hi.oclosed_kst hv
+  obtain ⟨h1, h2, h3, h4, h5, h6, h7, h8, h9, h10, h11, h12, h13, h14, h15, h16, h17, h18⟩ := hi
   cases a <;> simp only [step] at hs <;> (repeat' (split at hs)) <;> cases hs
   all_goals (first | (simp at he; done) | skip)
   all_goals (obtain ⟨c1, c2, c3, c4, c5, c6, c7⟩ := h he)
@@ -114,7 +123,7 @@ theorem ord1_init (c : Cfg) (input : List Nat) (k1 k2 : Nat) : Ord1 input (init 
 set_option maxHeartbeats 1000000 in
 theorem step_ord1 {c : Cfg} {input : List Nat} {s s' : St} {a : Act} (hn : c.n = 1)
     (hi : Inv c input s) (h : Ord1 input s) (hs : step c s a = some s') : Ord1 input s' := by
-  obtain ⟨h1, h2, h3, h4, h5, h6, h7, h8, h9, h10, h11, h12, h13, h14, h15⟩ := hi
+  obtain ⟨h1, h2, h3, h4, h5, h6, h7, h8, h9, h10, h11, h12, h13, h14, h15, h16, h17, h18⟩ := hi
   obtain ⟨o1, o2, o3⟩ := h
   by_cases hh : a = .rHandoff
   · subst hh
@@ -159,15 +168,15 @@ theorem step_ord1 {c : Cfg} {input : List Nat} {s s' : St} {a : Act} (hn : c.n =
 structure Good (c : Cfg) (input : List Nat) (s : St) : Prop where
   inv : Inv c input s
   conserved : Conserved input s
-  clean : s.envStopped = false → Clean c input s
+  clean : c.invalid = false → s.envStopped = false → Clean c input s
   ord1 : c.n = 1 → Ord1 input s
 
 theorem good_init (c : Cfg) (input : List Nat) (k1 k2 : Nat) : Good c input (init c input k1 k2) :=
-  ⟨inv_init c input k1 k2, conserved_init c input k1 k2, fun _ => clean_init c input k1 k2, fun _ => ord1_init c input k1 k2⟩
+  ⟨inv_init c input k1 k2, conserved_init c input k1 k2, fun hv _ => clean_init c input k1 k2 hv, fun _ => ord1_init c input k1 k2⟩
 
 theorem step_good {c : Cfg} {input : List Nat} {s s' : St} {a : Act}
     (h : Good c input s) (hs : step c s a = some s') : Good c input s' :=
-  ⟨step_inv h.inv hs, step_conserved h.conserved hs, step_clean h.inv h.clean hs, fun hn => step_ord1 hn h.inv (h.ord1 hn) hs⟩
+  ⟨step_inv h.inv hs, step_conserved h.conserved hs, fun hv => step_clean hv h.inv (h.clean hv) hs, fun hn => step_ord1 hn h.inv (h.ord1 hn) hs⟩
 
 theorem run_good {c : Cfg} {input : List Nat} (as : List Act) : ∀ {s s' : St},
     Good c input s → run c s as = some s' → Good c input s' := by
@@ -225,10 +234,10 @@ theorem run_nostop {c : Cfg} (as : List Act) : ∀ {s s' : St},
 
 /-- in a failure-free run that has ended, everything is with the consumer / the user function -/
 theorem terminal_items {c : Cfg} {input : List Nat} {s : St} (h : Good c input s) (hwf : c.wf)
-    (hclean : s.envStopped = false) (ht : s.terminal c = true) :
+    (hv : c.invalid = false) (hclean : s.envStopped = false) (ht : s.terminal c = true) :
     s.src = [] ∧ s.rd.held = [] ∧ s.hold = [] ∧ s.out = [] ∧ s.droppedW = [] ∧ s.droppedR = [] := by
-  obtain ⟨⟨h1, h2, h3, h4, h5, h6, h7, h8, h9, h10, h11, h12, h13, h14, h15⟩, _, hc, _⟩ := h
-  obtain ⟨c1, c2, c3, c4, c5, c6, c7⟩ := hc hclean
+  obtain ⟨⟨h1, h2, h3, h4, h5, h6, h7, h8, h9, h10, h11, h12, h13, h14, h15, h16, h17, h18⟩, _, hc, _⟩ := h
+  obtain ⟨c1, c2, c3, c4, c5, c6, c7⟩ := hc hv hclean
   obtain ⟨w1, w2, w3, w4⟩ := hwf
   simp only [St.terminal, St.allExited, Bool.and_eq_true, Bool.or_eq_true, decide_eq_true_eq, Bool.not_eq_true'] at ht
   obtain ⟨hall, hdone⟩ := ht
@@ -252,10 +261,10 @@ theorem terminal_items {c : Cfg} {input : List Nat} {s : St} (h : Good c input s
 
 /-- a failure-free run that has ended saw the channel the consumer / the workers read closed (io.EOF) -/
 theorem terminal_eof {c : Cfg} {input : List Nat} {s : St} (h : Good c input s) (hwf : c.wf)
-    (hclean : s.envStopped = false) (ht : s.terminal c = true) :
+    (hv : c.invalid = false) (hclean : s.envStopped = false) (ht : s.terminal c = true) :
     s.cons = .done ∧ (if c.hasOut then s.oclosed else s.pclosed) = true := by
-  obtain ⟨⟨h1, h2, h3, h4, h5, h6, h7, h8, h9, h10, h11, h12, h13, h14, h15⟩, _, hc, _⟩ := h
-  obtain ⟨c1, c2, c3, c4, c5, c6, c7⟩ := hc hclean
+  obtain ⟨⟨h1, h2, h3, h4, h5, h6, h7, h8, h9, h10, h11, h12, h13, h14, h15, h16, h17, h18⟩, _, hc, _⟩ := h
+  obtain ⟨c1, c2, c3, c4, c5, c6, c7⟩ := hc hv hclean
   obtain ⟨w1, w2, w3, w4⟩ := hwf
   simp only [St.terminal, St.allExited, Bool.and_eq_true, Bool.or_eq_true, decide_eq_true_eq, Bool.not_eq_true'] at ht
   obtain ⟨hall, hdone⟩ := ht
@@ -325,7 +334,7 @@ theorem quiescent_progress {c : Cfg} {input : List Nat} {s : St} (h : Inv c inpu
     (hf0 : s.fresh = 0) (hid0 : s.idle = 0) (hho : s.hold = []) (hrd : s.rd = .exited ∨ s.rd = .notStarted) :
     ∃ a, a.isEnv = false ∧ (step c s a).isSome = true := by
   obtain ⟨w1, w2, w3, w4⟩ := hwf
-  obtain ⟨h1, h2, h3, h4, h5, h6, h7, h8, h9, h10, h11, h12, h13, h14, h15⟩ := h
+  obtain ⟨h1, h2, h3, h4, h5, h6, h7, h8, h9, h10, h11, h12, h13, h14, h15, h16, h17, h18⟩ := h
   have hlive : s.live = 0 := by simp [St.live, hf0, hid0, hho]
   cases hk : s.kst with
   | cancelled => exact absurd hk hkc
@@ -363,14 +372,14 @@ theorem no_deadlock_internal {c : Cfg} {input : List Nat} {s : St} (h : Inv c in
     (hnt : s.terminal c = false) : ∃ a, a.isEnv = false ∧ (step c s a).isSome = true := by
   obtain ⟨w1, w2, w3, w4⟩ := hwf
   have hI := h
-  obtain ⟨h1, h2, h3, h4, h5, h6, h7, h8, h9, h10, h11, h12, h13, h14, h15⟩ := h
+  obtain ⟨h1, h2, h3, h4, h5, h6, h7, h8, h9, h10, h11, h12, h13, h14, h15, h16, h17, h18⟩ := h
   by_cases hci : s.cons = .idle
   · exact ⟨.cStart, rfl, by simp only [step]; split <;> (try split) <;> simp_all⟩
   by_cases hkc : s.kst = .cancelled
   · exact ⟨.kClose, rfl, by simp [step, hkc]⟩
   cases hst : s.started with
   | false =>
-    obtain ⟨n1, n2, n3, n4, n5, n6⟩ := h5 hst
+    obtain ⟨n1, n2, n3, n4, n5⟩ := h5 hst
     cases hc : s.cons with
     | idle => exact absurd hc hci
     | parked => exact absurd hc n4
@@ -401,11 +410,19 @@ theorem no_deadlock_internal {c : Cfg} {input : List Nat} {s : St} (h : Inv c in
           cases hho : s.hold with
           | cons y ys => exact holder_progress hI hho
           | nil =>
-            exfalso
             have hwx : 0 < s.wexited := by simp [hho] at h1; omega
-            rcases h13 hwx with hp | hp
+            rcases h13 hwx with hp | hp | ⟨hv, ho⟩
             · simp [hp] at h2; simp [h2] at hrd
             · simp [hp] at hw
+            · -- rejected options: the output is closed and empty, the consumer sees io.EOF
+              obtain ⟨i1, _, i3⟩ := h16 hv ho
+              cases hc : s.cons with
+              | idle => exact absurd hc hci
+              | parked => exact ⟨.cEof, rfl, by simp [step, hc, i1, i3]⟩
+              | done =>
+                have := h9 ho hc
+                simp [St.wdone, St.wdone2] at this hw
+                simp_all
     | notStarted =>
       have hid0 : s.idle = 0 := by
         rcases Nat.eq_zero_or_pos s.idle with h0 | h0
@@ -429,7 +446,7 @@ theorem no_deadlock_stopped {c : Cfg} {input : List Nat} {s : St} (h : Inv c inp
     (hw : s.wdone = true) (hne : s.allExited c = false) :
     ∃ a, a.isGoroutine = true ∧ (step c s a).isSome = true := by
   obtain ⟨w1, w2, w3, w4⟩ := hwf
-  obtain ⟨h1, h2, h3, h4, h5, h6, h7, h8, h9, h10, h11, h12, h13, h14, h15⟩ := h
+  obtain ⟨h1, h2, h3, h4, h5, h6, h7, h8, h9, h10, h11, h12, h13, h14, h15, h16, h17, h18⟩ := h
   have hw2 : s.wdone2 = true := by simp [St.wdone, St.wdone2] at hw ⊢; rcases hw with h | h <;> simp [h]
   cases hst : s.started with
   | false => simp [St.allExited, hst] at hne
